@@ -256,7 +256,7 @@ example : (asmFor 0 [Instr.popUntilMark 0] [Instr.push (.bool false)] [Instr.pop
 
 Stage A — machine lemmas: one turn of the `Run` loop, and each simple instruction as a state
 transformer. Stage B — the segment lemma and the top-level statement for the pure control
-fragment `F0c` (literals, non-empty `begin`, `cond` with any number of arms, `and`/`or` of any
+fragment `F0c` (literals, `begin`, `cond` with any number of arms, `and`/`or` of any
 arity, nested arbitrarily), for programs of every size and nesting. -/
 
 open ZygoVerif.Sim
@@ -421,11 +421,14 @@ example : obsOfVM (VM.runText 141 demoF0c VM.initSt).1 = obsOfRef (Ref.runProgra
 /-! ## Stages C and D — variables and scopes: symbols, `def`, `set`, `newScope`, `letseq`, `let`
 (fragment Fv ⊇ F0c)
 
-`Fv` = literals, symbol reference, `def`, `set`, non-empty `begin`, `cond`, `and`, `or`,
+`Fv` = literals, symbol reference, `def`, `set`, `begin` (also empty), `cond`, `and`, `or`,
 non-empty `newScope`, `letseq`, and `let` with pairwise distinct names, nested arbitrarily.
 (`let` binds its names by popping, the last name first; the reference evaluator binds the first
 name first; with a repeated name the two differ — `(let [a 1 a 2] a)` is 1 on the VM and in the
-implementation, 2 in the reference evaluator — so such a `let` is outside the fragment.)
+implementation, 2 in the reference evaluator — so such a `let` is outside the fragment, and
+`Ref.wf` puts it outside the property's domain. An empty `(newScope)` stays outside too: the
+reference evaluator allocates a frame for it, the VM just pushes nil, so the two tables leave
+the lockstep the relation is built on.)
 
 Expressions now have effects (on the scopes) and can fail (unbound symbol, re-binding with a
 different type). The segment lemma carries the simulation relation `Sim.Rel` between VM state
@@ -713,8 +716,8 @@ def InProvedFragment (p : List Expr) : Prop := FvList p = true ∨ FcList p = tr
 
 /-- **The part of `CompileCorrect` that is NOT proved**: programs that are neither in Fv nor in
 Fc — i.e. using calls whose head is not the name of a first-order builtin (user functions,
-`map`/`apply`/`force`, computed heads), `for`/`break`/`continue`, `fn`/`defn`, a `let`
-with a repeated name, an empty `begin`/`newScope`, or (together with calls or array literals) a
+`map`/`apply`/`force`, computed heads), `for`/`break`/`continue`, `fn`/`defn`, an empty
+`newScope`, or (together with calls or array literals) a
 binder that re-uses a builtin name. Held by the 3-way `eval` correspondence on every run, not by a theorem. -/
 def CompileCorrectOutsideProved : Prop := CompileCorrectOn (fun p => ¬ InProvedFragment p)
 
